@@ -246,3 +246,95 @@ def lazy_create(ctx: Ctx) -> None:
     for d, c, ts in repo.all_call_sites():
         if any(t.kind == "def" and t.ref is cza for t in ts):
             ctx.ob(d or "<module>", c, d is not None and _below_boundary(d), "create_zarr_array is run only by executors", sel="calls-create-task")
+
+
+def _maybe_array_params(repo, d: Def) -> set[str]:
+    """parameters of d that may hold a cubed array: used as an array, or handed to an array
+    coercion/elementwise function; parameters that are iterated are sequences, not arrays"""
+    from .align import _array_like_params
+
+    ps = set(d.params)
+    out = set(_array_like_params(repo, d)) & ps
+    for c, ts in repo.calls_in(d):
+        if any(t.kind == "def" and (t.ref.name in ("asarray", "elemwise", "_promote_scalars", "result_type", "blockwise", "map_blocks") or t.ref.module.qual.endswith("elementwise_functions")) for t in ts):
+            for a in c.args:
+                if isinstance(a, ast.Name) and a.id in ps:
+                    out.add(a.id)
+    seqs = set()
+    for n in d.own_nodes():
+        if isinstance(n, (ast.For, ast.comprehension)) and isinstance(n.iter, ast.Name):
+            seqs.add(n.iter.id)
+        if isinstance(n, ast.Starred) and isinstance(n.value, ast.Name):
+            seqs.add(n.value.id)
+    if d.vararg:
+        seqs.add(d.vararg)
+    return out - seqs - {"self"}
+
+
+@rule("LAZY-IMPLICIT-1", props=["C16"], floor=30)
+def lazy_implicit(ctx: Ctx) -> None:
+    """no builder function truth-tests or converts a value that may be a cubed array
+    (`if a > b:`, `bool(x)`, `int(x)`, `not x`): Array.__bool__/__int__/__float__ compute"""
+    repo = ctx.repo
+    scope = ("cubed.array_api", "cubed.core.ops", "cubed.array.", "cubed.core.gufunc", "cubed.core.indexing", "cubed.random", "cubed.core.groupby")
+    n_funcs = 0
+    for d in repo.functions():
+        mq = d.module.qual
+        if not mq.startswith(scope) or mq.endswith("array_object"):
+            continue
+        ap = _maybe_array_params(repo, d)
+        if not ap:
+            continue
+        n_funcs += 1
+        bad = []
+        for n in d.own_nodes():
+            tests = []
+            if isinstance(n, (ast.If, ast.While, ast.IfExp, ast.Assert)):
+                tests.append(n.test)
+            elif isinstance(n, ast.Call) and isinstance(n.func, ast.Name) and n.func.id in ("bool", "int", "float", "complex") and n.args:
+                tests.append(n.args[0])
+            elif isinstance(n, ast.comprehension):
+                tests += n.ifs
+            for t in tests:
+                atoms = []
+
+                def split(e):
+                    if isinstance(e, ast.BoolOp):
+                        for v in e.values:
+                            split(v)
+                    elif isinstance(e, ast.UnaryOp) and isinstance(e.op, ast.Not):
+                        split(e.operand)
+                    else:
+                        atoms.append(e)
+
+                split(t)
+                for a in atoms:
+                    if isinstance(a, ast.Name) and a.id in ap:
+                        bad.append((n, a))
+                    elif isinstance(a, ast.Compare) and not any(isinstance(o, (ast.Is, ast.IsNot, ast.In, ast.NotIn)) for o in a.ops):
+                        if any(isinstance(o, ast.Name) and o.id in ap for o in [a.left] + a.comparators):
+                            bad.append((n, a))
+        # an isinstance(...) scalar check on the same parameter earlier in the test makes the
+        # comparison safe
+        real = []
+        for n, a in bad:
+            names = {x.id for x in ast.walk(a) if isinstance(x, ast.Name) and x.id in ap}
+            guarded = False
+            cfg = None
+            from ..cfg import cfg_of
+
+            cfg = cfg_of(d)
+            if cfg.has(a):
+                for t, pol, _ in cfg.branch_conditions(cfg.node_of(a)):
+                    if pol and isinstance(t, ast.Call) and isinstance(t.func, ast.Name) and t.func.id == "isinstance" and isinstance(t.args[0], ast.Name) and t.args[0].id in names and "Array" not in unparse(t.args[1]):
+                        guarded = True
+            test_txt = unparse(n.test if hasattr(n, "test") else a, 200)
+            if "isinstance(" in test_txt and "Array" not in test_txt:
+                guarded = True
+            if not guarded:
+                real.append((n, a))
+        if not real:
+            ctx.ob(d, None, True, f"no truth test / scalar conversion of possibly-array parameters {sorted(ap)}", sel="implicit")
+        for n, a in real:
+            ctx.ob(d, a, False, f"`{unparse(a, 50)}` is truth-tested/converted, but {sorted({x.id for x in ast.walk(a) if isinstance(x, ast.Name) and x.id in ap})} may be a cubed array: Array.__bool__ computes — a composing function would execute tasks while building", sel=f"implicit:{unparse(a, 40)}")
+    ctx.need(n_funcs >= 30, f"only {n_funcs} builder functions with array parameters found")
